@@ -28,6 +28,9 @@ type Clause struct {
 
 type LoopSpec struct {
 	Invariants []*Clause
+	// Steps: per-iteration postconditions, checked at every back edge; old(...) is the state at the head
+	// of the same iteration (after the invariant has been assumed)
+	Steps []*Clause
 	Unroll     int
 	Decreases  *Clause
 }
@@ -172,7 +175,8 @@ func (sp *Specs) loadRepoContracts(repo string) error {
 }
 
 var reHead = regexp.MustCompile(`^(func|trusted|iface|extern)\s+(\S+?)(\(([^)]*)\))?\s*$`)
-var reLoop = regexp.MustCompile(`^loop\s+(\d+)\s*:\s*(invariant|unroll|decreases)\s+(.*)$`)
+var reLoop = regexp.MustCompile(`^loop\s+(\d+)\s*:\s*(invariant|unroll|decreases|step)\s+(.*)$`)
+var reSelectPoint = regexp.MustCompile(`^after\s+select\s*#(\d+)\s*:\s*assume\s+(.*)$`)
 var rePoint = regexp.MustCompile(`^after\s+call\s+(\S+?)#(\d+)\s*:\s*(assert|assume)\s+(.*)$`)
 var reMake = regexp.MustCompile(`^make\s*#(\d+)\s*:\s*limit\s+(.*)$`)
 
@@ -440,6 +444,12 @@ func (sp *Specs) parseText(file string, lines []string, nums []int) error {
 					return fail(err)
 				}
 				ls.Invariants = append(ls.Invariants, c)
+			case "step":
+				c, err := mk(m[3])
+				if err != nil {
+					return fail(err)
+				}
+				ls.Steps = append(ls.Steps, c)
 			case "decreases":
 				c, err := mk(m[3])
 				if err != nil {
@@ -454,6 +464,17 @@ func (sp *Specs) parseText(file string, lines []string, nums []int) error {
 				ls.Unroll = n
 			}
 		case "after":
+			if ms := reSelectPoint.FindStringSubmatch(l); ms != nil {
+				// `after select #k: assume e` - an assumption about what the k-th select of the function
+				// receives from other goroutines (reported as an assumption, never proved)
+				k, _ := strconv.Atoi(ms[1])
+				c, err := mk(ms[2])
+				if err != nil {
+					return fail(err)
+				}
+				cur.Points = append(cur.Points, &PointSpec{CallName: "select", CallOrd: k, Assumes: []*Clause{c}})
+				continue
+			}
 			m := rePoint.FindStringSubmatch(l)
 			if m == nil {
 				return fail(fmt.Errorf("bad point clause: %s", l))
